@@ -45,6 +45,7 @@ VARIANTS = {
 THOROUGH_ONLY = {
     "ds_shard_compressed": ({"kind": "ds", "o": dict(DS, mode="shard", D=2, compression_rank=2)}, [(6, 5), (7,)]),
 }
+NP_LEAVES = ["tf_shampoo", "sm3", "ds_full", "tf_sketchy"]     # all their decays / rates are dyadic
 EAGER = ["ds_full", "ds_int8_momentum", "ds_compressed", "ds_fd", "sm3", "tf_shampoo", "tf_sketchy"]
 
 
@@ -62,18 +63,21 @@ def judge_sched_jobs(ck, jobs, res, label, traces):
                                                                    "err": r["error"]})
       continue
     restores += r["restores"]
+    if j.get("np_leaves"):
+      ck.calib("numpy_leaf_resume_update_rel", r.get("np_leaf_worst", 0.0), 1e-4)
     for s, out in zip(j["schedules"], r["results"]):
       key = "".join({"step": "s", "save": "S", "crash": "C"}[a["a"]] for a in s)
-      ck.count(1, key=[name, j.get("eager", False), key])
+      ck.count(1, key=[name, j.get("eager", False), bool(j.get("np_leaves")), key])
       traces.append({"events": out["events"], "meta": {"variant": name, "eager": j.get("eager", False), "sched": key,
                                                        "seed": j["seed"]}})
       if out["mismatches"]:
         m = out["mismatches"][0]
         ck.violation(f"{name}|{m['clause']}",
-                     f"{label}: {name} ({'eager' if j.get('eager') else 'jit'}) schedule {key}: {m['clause']} at action "
+                     f"{label}: {name} ({'eager, NumPy leaves' if j.get('np_leaves') else 'eager' if j.get('eager') else 'jit'}) schedule {key}: {m['clause']} at action "
                      f"{m['at']} (count {m.get('count')}) {str({k: v for k, v in m.items() if k in ('rel', 'detail')})[:300]}",
                      {"variant": j["variant"], "shapes": j["shapes"], "T": j["T"], "seed": j["seed"],
-                      "eager": j.get("eager", False), "schedule": s, "mismatches": out["mismatches"]})
+                      "eager": j.get("eager", False), "np_leaves": bool(j.get("np_leaves")), "schedule": s,
+                      "mismatches": out["mismatches"]})
       else:
         ck.traces_ok(1)
   return restores
@@ -141,6 +145,20 @@ def run(ck):
       jobs.append({"kind": "sched", "name": name, "variant": var, "shapes": shapes, "T": T,
                    "seed": ck.seed * 100 + 50 + vi, "eager": True,
                    "schedules": [s["sched"] for s in (eager_scheds if quick else eager_scheds + [cc[0], older[0]])]})
+  # op-by-op resume from host NumPy leaves (what flax.serialization.from_bytes returns, made writable as
+  # pickle / np.load would): an in-place write into a restored leaf is silent there.  Updates are compared at
+  # 1e-4, not bitwise: NumPy combines host leaves without XLA's fused multiply-add (observed 5e-7)
+  np_variants = {n: variants[n] for n in NP_LEAVES}
+  tfv, tfs = variants["tf_shampoo"]
+  # statistics every second step: a restore at an odd count is followed by a SKIPPED statistics step, whose
+  # untaken branch still closes over the restored buffers
+  np_variants["tf_shampoo_sf2"] = ({"kind": "tf", "o": dict(tfv["o"], SF=2)}, tfs)
+  for vi, name in enumerate(sorted(np_variants)):
+    if True:
+      var, shapes = np_variants[name]
+      jobs.append({"kind": "sched", "name": name, "variant": var, "shapes": shapes, "T": T,
+                   "seed": ck.seed * 100 + 70 + vi, "eager": True, "np_leaves": True,
+                   "schedules": [s["sched"] for s in eager_scheds]})
   jobs.sort(key=lambda j: -len(j["schedules"]) * (4 if j["eager"] else 1))
   res = core.run_workers("harness.workers.resume_run", jobs, devices=2, work=ck.work, chunk=1)
   traces = []
